@@ -56,6 +56,8 @@ class Net:
         self.sendloss = 0
         self.ackloss = 0
         self.lat_lo, self.lat_hi = 0.002, 0.03
+        self.hung = 0                   # sends hanging right now
+        self.stalls: list[dict] = []    # half-open connection: the next send hangs for `dur` s and then fails
         self.armed: list[dict] = []     # state-triggered faults: fail the n-th send made while the runner is in a state
         self.runner = None
         self.attempts: dict[int, list[tuple[float, bool]]] = {}      # id(msg) -> [(time, sender saw success)]
@@ -107,12 +109,30 @@ class SimEngineDispatcher(EngineDispatcher):
         net.keep.append(message)
         await asyncio.sleep(net.latency())
 
-        def fail(kind):
+        def fail(kind, kill=True):
             net.attempts.setdefault(mid, []).append((net.loop.time(), False))
             net.res.fault(kind)
             net.rec.log("send.fail", kind, type(message).__name__, message.sequence_number, round(net.loop.time(), 4))
-            net.conn_alive = False
+            if kill:
+                net.conn_alive = False
             raise ProtocolNetworkException("sim: " + kind)
+        if net.stalls and net.up and net.conn_alive:
+            # the connection has gone half-open: this call hangs until the RPC layer gives up on it, every other call fails
+            # at once. By the time the hung call raises, the runner may have been through a whole recovery on a NEW
+            # connection, which the late failure of the old call does not touch.
+            st = net.stalls.pop(0)
+            net.conn_alive = False
+            net.res.probe("send_hung_on_half_open_connection")
+            net.rec.log("send.hang", type(message).__name__, message.sequence_number, st["dur"], round(net.loop.time(), 4))
+            state0 = net.runner.state if net.runner is not None else None
+            net.hung += 1
+            try:
+                await asyncio.sleep(st["dur"])
+            finally:
+                net.hung -= 1
+            if net.runner is not None and net.runner.state != state0:
+                net.res.probe(f"hung_send_failed_in_other_state_{net.runner.state}")
+            fail("send_hung_then_failed", kill=False)
         if not net.up:
             fail("send_while_link_down")
         if not net.conn_alive:
@@ -170,6 +190,8 @@ class SimR(Simulator):
                             rng.choice([None, None, "MethodMsg", "MethodMsg", "UodInfoMsg", "TagsUpdatedMsg", "RunStoppedMsg",
                                         "RunStartedMsg", "MethodStateMsg"])])
             t += 0.1
+            if rng.random() < 0.3:
+                ops.append([round(t, 3), "stall", rng.choice([3.0, 8.0, 20.0, 45.0])])
             ops.append([round(t, 3), "link", "down"])
             if rng.random() < 0.5:
                 ops.append([round(t + 0.2, 3), "user", rng.choice(["Stop", "Start", "Restart", "Pause"])])
@@ -211,8 +233,10 @@ class SimR(Simulator):
                 ops.append([round(t, 3), "ackloss", rng.randint(1, 3)])
             elif r < 0.80:
                 ops.append([round(t, 3), "connfail", rng.randint(1, 4)])
-            elif r < 0.85:
+            elif r < 0.83:
                 ops.append([round(t, 3), "latency", 0.05, rng.choice([0.2, 0.6])])
+            elif r < 0.87:
+                ops.append([round(t, 3), "stall", rng.choice([1.0, 3.0, 8.0, 20.0, 45.0])])
             elif r < 0.95:
                 # a fault placed inside the recovery protocol: the n-th send (optionally of one message type) made
                 # while the runner is in the given state fails or loses its acknowledgement
@@ -312,6 +336,14 @@ class SimR(Simulator):
                                 f"runner in {st} for {steady_samples} runner ticks with {len(runner._message_buffer)} "
                                 f"message(s) still in the buffer: "
                                 f"{[type(m).__name__ for m in runner._message_buffer[:4]]}")
+                        # a message that was POSTED and came back from a failed send is another matter than one the
+                        # (known) still-running buffer loop put there: it gets its own site
+                        sent = [m for m in runner._message_buffer if by_id.get(id(m), {}).get("how") == "post"]
+                        if sent:
+                            res.add("C27", "C27.buffer_not_empty_in_steady_state",
+                                    f"{st}:failed_send:{'+'.join(sorted({type(m).__name__ for m in sent}))}", int(loop.time() * 10),
+                                    f"runner in {st} for {steady_samples} runner ticks while {len(sent)} message(s) whose send "
+                                    f"failed wait in the buffer: {[type(m).__name__ for m in sent[:4]]}")
                 else:
                     steady_samples = 0
 
@@ -341,6 +373,8 @@ class SimR(Simulator):
                     net.connfail += op[2]
                 elif k == "latency":
                     net.lat_lo, net.lat_hi = op[2], op[3]
+                elif k == "stall":
+                    net.stalls.append({"dur": op[2]})
                 elif k == "arm":
                     net.armed.append({"state": op[2], "nth": op[3], "kind": op[4], "type": op[5], "seen": 0})
             # faults stop
@@ -350,6 +384,10 @@ class SimR(Simulator):
             net.up = True
             net.sendloss = net.ackloss = net.connfail = 0
             net.armed.clear()
+            net.stalls.clear()
+            while net.hung:              # the late failure of a hung send is a fault too: faults stop after the last one
+                await asyncio.sleep(0.5)
+            t_stop = max(t_stop, loop.time())
             net.lat_lo, net.lat_hi = 0.002, 0.03
             rec.log("faults_stop", round(loop.time(), 3))
             await asyncio.sleep(plan["cfg"]["settle"])
@@ -388,7 +426,8 @@ class SimR(Simulator):
             att = net.attempts.get(d["id"], [])
             needs = d["state"] in BUFFER_STATES or any(not ok for _, ok in att) or d.get("buffered")
             if needs and d["id"] not in deliv:
-                res.add("C27", "C27.message_lost", d["type"], step,
+                known_origin = d["how"] == "buffer" and d["state"] == "Reconnected"    # the still-running buffer loop
+                res.add("C27", "C27.message_lost", d["type"] if known_origin else f"{d['type']}:{d['how']}@{d['state']}", step,
                         f"{d['type']} produced at t={d['t']:.2f} in runner state {d['state']} ({d['how']}) was never delivered; "
                         f"attempts {[(round(t, 2), ok) for t, ok in att][:4]}; buffer now {len(runner._message_buffer)}")
         if runner._message_buffer:
@@ -396,6 +435,13 @@ class SimR(Simulator):
                     f"{st}:{'+'.join(sorted({type(m).__name__ for m in runner._message_buffer}))}", step,
                     f"runner reports {st} but {len(runner._message_buffer)} message(s) remain in its buffer: "
                     f"{[type(m).__name__ for m in runner._message_buffer[:5]]}")
+            by = {d["id"]: d for d in produced}
+            sent = [m for m in runner._message_buffer if by.get(id(m), {}).get("how") == "post"]
+            if sent:
+                res.add("C27", "C27.stranded_in_buffer_after_catch_up",
+                        f"{st}:failed_send:{'+'.join(sorted({type(m).__name__ for m in sent}))}", step,
+                        f"runner reports {st} but {len(sent)} message(s) whose send failed remain in its buffer: "
+                        f"{[type(m).__name__ for m in sent[:5]]}")
         # (3) duplicates only after a failed attempt; one sequence number per message; no sharing
         for mid, times in deliv.items():
             if len(times) > 1:
